@@ -98,6 +98,17 @@ Phases == {"serving", "stopping"}
 OutcomeAt(phase, len, h, dec) == Outcome(len, h, dec)       \* no phase is an exception
 
 -----------------------------------------------------------------------------
+(* Sequences.  "For every datagram or stream message a server receives": the  *)
+(* statement quantifies over every message of a server's life, not over the   *)
+(* first one.  The n-th message gets the outcome its own octets give it,      *)
+(* whatever was received before it (`prefix': the messages received earlier   *)
+(* on the same socket / connection); and no message -- however short, however *)
+(* malformed -- ends the service: the serve call comes back through Shutdown  *)
+(* only (C13), so the messages behind it are received and disposed of too.    *)
+OutcomeAfter(prefix, len, h, dec) == Outcome(len, h, dec)   \* no history is an exception
+EndsService(len, h) == FALSE                                \* no message makes the serve call return
+
+-----------------------------------------------------------------------------
 (* Replies the library constructs itself.  r is the header of the reply (same *)
 (* record shape as a request header).  The statement fixes: the request's ID, *)
 (* QR set, the rcode, and no answer / authority / additional records.  NOTIMP *)
